@@ -281,6 +281,7 @@ def BaseCookieSessionFactory(
         popitem = manage_changed(dict.popitem)
         __setitem__ = manage_changed(dict.__setitem__)
         __delitem__ = manage_changed(dict.__delitem__)
+        __ior__ = manage_changed(dict.__ior__)
 
         # flash API methods
         @manage_changed
